@@ -302,6 +302,7 @@ def parts(tier):
     sc = [{'M': M, 'size': z, 'twin': t, 'src': src, 'dpath': dp} for M in (4096, 65536) for z in (0, 1, 5000) for t in twins for src in ('bytes', 'file')
           for dp in ('/sdcard/caf\u00e9.bin', '/\u3042/\u3044', '/data/\U0001F600', '/a b/c,d')]
     sc += [{'M': 4096, 'size': 3000, 'twin': t, 'src': 'dir', 'names': ['\u00fcber.txt', 'x'], 'cwd': 'elsewhere', 'dpath': '/sd/\u00e9'} for t in twins]
+    sc += [{'M': 4096, 'size': 300, 'twin': t, 'src': 'dir', 'names': ['a', 'b'], 'cwd': 'elsewhere', 'dpath': dp} for t in twins for dp in ('/sdcard/Download/', '/', 'rel/dir')]      # '<device_path>/<name>', literally
     out.append(Part('non-ascii-paths', sc, run_push, what='device paths with non-ASCII characters, spaces and commas', bound='%d pushes' % len(sc)))
     sc = []
     for t in twins:
